@@ -27,7 +27,7 @@ Print Assumptions declared_functional.
    chains - every declared schema has exactly one model, the model is not a placeholder, and its fields are exactly the
    declared ones: own + inherited through allOf, each with its JSON key, required flag and type reference.
    NOT proved (stated as the goal): the same conclusion for all node shapes (inline objects, maps, unions; needs
-   [no_capture]) and for cyclic documents under  guard_F02a && guard_F02b && guard_F02c && guard_F02d && guard_F02f. *)
+   [no_capture]) and for cyclic documents under  guard_F02a && guard_F02b && guard_F02c && guard_F02d. *)
 Theorem C02_partial : forall md S rk,
   core_spec S = true -> ranked_b rk S = true -> depth_ok rk S md = true ->
   forall n, In n (map fst S) -> faithful S (parse_doc md S) n.
@@ -81,6 +81,19 @@ Theorem C02_required_only_branch :
 Proof. exact required_only_branch. Qed.
 Print Assumptions C02_required_only_branch.
 
+(* Regression for the fixed finding F02e (commit 635317b): top-level pure aliases (chained, declared before or after
+   the target) get a model with exactly the target's declared fields, and the run fires no loss-relevant branch. *)
+Theorem C02_alias_regression :
+  all_present spec_alias (parse_doc default_max_depth spec_alias) = true
+  /\ events (parse_doc default_max_depth spec_alias) = []
+  /\ faithful_b spec_alias (parse_doc default_max_depth spec_alias) sAlias = true
+  /\ faithful_b spec_alias (parse_doc default_max_depth spec_alias) sAliasTwo = true
+  /\ faithful_b (rev spec_alias) (parse_doc default_max_depth (rev spec_alias)) sAliasTwo = true
+  /\ model_fields (parse_doc default_max_depth spec_alias) sAliasTwo
+     = Some [(sident, true, TPrim PInteger); (slabel, false, TPrim PString)].
+Proof. exact alias_regression. Qed.
+Print Assumptions C02_alias_regression.
+
 Theorem C02_refuted_F02a :
   guard_F02a (parse_doc default_max_depth spec_F02a) = false
   /\ ~ faithful spec_F02a (parse_doc default_max_depth spec_F02a) sUser
@@ -100,13 +113,24 @@ Theorem C02_refuted_F02c :
 Proof. exact refuted_F02c. Qed.
 Print Assumptions C02_refuted_F02c.
 
+(* F02d is narrowed by the fix of build_schemas (declared schemas cut off at the limit are re-parsed from depth 0):
+   regression - every schema of the $ref chain with depth limit 3 now has exactly its declared fields ... *)
+Theorem C02_regression_F02d :
+  forallb (fun p => faithful_b spec_F02d (parse_doc 3 spec_F02d) (fst p)) spec_F02d = true.
+Proof. exact regression_F02d. Qed.
+Print Assumptions C02_regression_F02d.
+
+(* ... what is left: an inline object nested deeper than the limit stays a depth placeholder without fields *)
 Theorem C02_refuted_F02d :
-  guard_F02d (parse_doc 3 spec_F02d) = false /\ ~ faithful spec_F02d (parse_doc 3 spec_F02d) (sS 3).
+  guard_F02d (parse_doc 2 spec_F02d_inline) = false
+  /\ exists e, alookup sNodeAlphaBeta (parsed (parse_doc 2 spec_F02d_inline)) = Some e
+               /\ flags_of e = 4 /\ fields_of e = [].
 Proof. exact refuted_F02d. Qed.
 Print Assumptions C02_refuted_F02d.
 
-Theorem C02_refuted_F02f :
-  guard_F02f (parse_doc default_max_depth spec_F02f) = false
-  /\ ~ faithful spec_F02f (parse_doc default_max_depth spec_F02f) sTree.
-Proof. exact refuted_F02f. Qed.
-Print Assumptions C02_refuted_F02f.
+(* F02f fixed: regression - the array schema whose inline item refers back to it is a real model *)
+Theorem C02_regression_F02f :
+  faithful_b spec_F02f (parse_doc default_max_depth spec_F02f) sTree = true
+  /\ has_ev EvMarked (parse_doc default_max_depth spec_F02f) = false.
+Proof. exact regression_F02f. Qed.
+Print Assumptions C02_regression_F02f.
